@@ -735,6 +735,8 @@ struct Pass {
     iterarg: Vec<String>,
     into_fn: Option<String>,
     asref_fn: Option<String>,
+    ret_kind: Kind,
+    ret_ok_ty: Option<syn::Type>,
     box_count: usize,
     kinds: BTreeMap<String, Kind>,
     field_kinds: BTreeMap<String, Kind>,
@@ -778,7 +780,7 @@ impl Pass {
     fn x15(&mut self, e: &Expr) -> Option<Expr> {
         let (base, links) = unchain(e);
         let n = names(&links);
-        if n.len() < 2 || n[0] != "iter" {
+        if n.len() < 2 || (n[0] != "iter" && n[0] != "into_iter") {
             return None;
         }
         let term = *n.last().unwrap();
@@ -1002,6 +1004,46 @@ impl VisitMut for Pass {
                     let k = self.kind_of(&init.expr);
                     self.kinds.insert(id.to_string(), k);
                 }
+            }
+        }
+        // X17: a lazily mapped slice that is collected into `Result<Vec<_>, _>` as the function's result
+        //   `let it = V.iter().map(|x| E); it.collect()`  ->  an index loop that pushes `E`'s Ok values and returns its
+        //   first Err (what `FromIterator for Result` does); `E` is the real text
+        let nst = b.stmts.len();
+        if nst >= 2 && self.ret_kind == Kind::Res {
+            let mut hit: Option<(syn::Ident, Expr, Pat, Expr)> = None;
+            if let (Stmt::Local(l), Stmt::Expr(Expr::MethodCall(mc), None)) = (&b.stmts[nst - 2], &b.stmts[nst - 1]) {
+                if let (Some(id), Some(init)) = (pat_ident(&l.pat), l.init.as_ref()) {
+                    let tail_ok = mc.method == "collect" && mc.args.is_empty() && matches!(&*mc.receiver, Expr::Path(p) if p.path.is_ident(&id));
+                    let (base, links) = unchain(&init.expr);
+                    if tail_ok && init.diverge.is_none() && names(&links) == ["iter", "map"] {
+                        if let Some(Expr::Closure(c)) = links[1].args.first() {
+                            let mut hx = HasEarlyExit(false);
+                            syn::visit::Visit::visit_expr(&mut hx, &c.body);
+                            if c.inputs.len() == 1 && !hx.0 {
+                                let pat = match &c.inputs[0] { Pat::Type(pt) => (*pt.pat).clone(), other => other.clone() };
+                                hit = Some((id, base, pat, (*c.body).clone()));
+                            }
+                        }
+                    }
+                }
+            }
+            if let Some((_id, base, pat, body)) = hit {
+                let line = b.stmts[nst - 2].span().start().line;
+                b.stmts.truncate(nst - 2);
+                match &self.ret_ok_ty {
+                    Some(t) => b.stmts.push(parse_quote!(let mut __out: #t = Vec::new();)),
+                    None => b.stmts.push(parse_quote!(let mut __out = Vec::new();)),
+                }
+                b.stmts.push(parse_quote!(let __n = #base.len();));
+                b.stmts.push(parse_quote!(let mut __i: usize = 0;));
+                b.stmts.push(Stmt::Expr(parse_quote!(while __i < __n {
+                    let #pat = &#base[__i];
+                    match #body { Ok(__v) => { __out.push(__v); } Err(__e) => { return Err(__e); } }
+                    __i = __vp_succ(__i);
+                }), None));
+                b.stmts.push(Stmt::Expr(parse_quote!(Ok(__out)), None));
+                self.rw.note("X17", line);
             }
         }
         // X4 at statement level (top-down), then recurse
@@ -1519,6 +1561,33 @@ pub fn extract(ast: &syn::File, file: &str, spec: &FnSpec, pr: &mut Printer) -> 
         iterarg: spec.attrs.get("iterarg").map(|s| s.split(',').map(|x| x.to_string()).collect()).unwrap_or_default(),
         into_fn: spec.attrs.get("into").cloned(),
         asref_fn: spec.attrs.get("asref").cloned(),
+        ret_ok_ty: match &f.sig.output {
+            syn::ReturnType::Type(_, t) => match &**t {
+                syn::Type::Path(tp) => match tp.path.segments.last() {
+                    Some(seg) if seg.ident == "Result" => match &seg.arguments {
+                        syn::PathArguments::AngleBracketed(ab) => match ab.args.first() {
+                            Some(syn::GenericArgument::Type(t0)) => Some(t0.clone()),
+                            _ => None,
+                        },
+                        _ => None,
+                    },
+                    _ => None,
+                },
+                _ => None,
+            },
+            _ => None,
+        },
+        ret_kind: match &f.sig.output {
+            syn::ReturnType::Type(_, t) => match &**t {
+                syn::Type::Path(tp) => match tp.path.segments.last().map(|s| s.ident.to_string()).as_deref() {
+                    Some("Result") => Kind::Res,
+                    Some("Option") => Kind::Opt,
+                    _ => Kind::Unknown,
+                },
+                _ => Kind::Unknown,
+            },
+            _ => Kind::Unknown,
+        },
         box_count: 0,
         kinds: BTreeMap::new(),
         field_kinds,
